@@ -69,21 +69,28 @@ Proof. apply affine_isometry_lemma; lra. Qed.
 Example ex_radii : exists q, radius_gw bragg_table 86 = PVal q /\ rlook bragg_table 86 = PNaN /\ rlook bragg_table 85 = PNaN /\ rlook bragg_table 84 = PVal q.
 Proof. eexists. repeat split; vm_compute; reflexivity. Qed.
 
-(* ---- explicit `select` that is not 0..M-1: generate_weights pairs select[i] with segment i, compute_weights pairs
-        atom i with segment i for i in select; executed at bigQ on H2 (order 1), points = the two nuclei ---- *)
-Local Open Scope nat_scope.
-Definition refute_rad : nat -> bigQ := fun _ => 1%bigQ.
-Definition refute_Rm : nat -> nat -> bigQ := fun A B => if Nat.eqb A B then 0%bigQ else 2%bigQ.
-Definition refute_pts : list (nat -> bigQ) :=
-  [fun A => match A with 0 => 0%bigQ | _ => 2%bigQ end; fun A => match A with 0 => 2%bigQ | _ => 0%bigQ end].
-Definition list_eqQ (a b : list bigQ) : bool :=
-  (length a =? length b) && forallb (fun p => BigQ.eqb (fst p) (snd p)) (combine a b).
-Lemma routes_select_refuted_lemma :
-  exists a b, generate_weights QOps 1 2 refute_rad refute_Rm refute_pts [1; 0] [0; 1; 2] = Some a /\
-              compute_weights QOps 1 2 refute_rad refute_Rm refute_pts [1; 0] [0; 1; 2] = Some b /\
-              list_eqQ a [0%bigQ; 0%bigQ] = true /\ list_eqQ b [1%bigQ; 1%bigQ] = true.
-Proof. eexists; eexists. repeat split; vm_compute; reflexivity. Qed.
-
 Lemma copies_identical_lemma T (O : NumOps T) k mu a tbl z :
   cell_caw O k (nu_caw O mu a) = cell_gw O k (nu_gw O mu a) /\ radius_caw tbl z = radius_gw tbl z.
 Proof. split; [apply copies_agree | apply radius_copies_lemma]. Qed.
+
+(* ---- the main theorems instantiated on the example molecule (hypotheses are satisfiable) ---- *)
+Local Open Scope R_scope.
+Example ex_partition :
+  fold_right Rplus 0 (map (becke_geom 3 (fun A => INR (S A)) ex_atoms (1 / 3, 1 / 5, -2)) (seq 0 4)) = 1 /\
+  becke_geom 3 (fun A => INR (S A)) ex_atoms (0, 2, 0) 2 = 1 /\ becke_geom 3 (fun A => INR (S A)) ex_atoms (0, 2, 0) 0 = 0.
+Proof.
+  assert (Hne : ex_atoms <> []) by discriminate.
+  pose proof (becke_partition_euclid_lemma 3 (fun A => INR (S A)) ex_atoms (1 / 3, 1 / 5, -2) ex_atoms_nodup Hne) as (_ & Hs & _).
+  pose proof (becke_partition_euclid_lemma 3 (fun A => INR (S A)) ex_atoms (1 / 3, 1 / 5, -2) ex_atoms_nodup Hne) as (_ & _ & Hn).
+  split; [exact Hs|]. destruct (Hn 2%nat ltac:(cbn; lia)) as [H1 H2]. split; [exact H1|].
+  apply (H2 0%nat); cbn; lia.
+Qed.
+Example ex_chunks pts : length pts = 7%nat ->
+  call_with ROps 3 4 (fun A => INR (S A)) (geom_R ex_atoms) 2 pts [0; 2; 2; 5; 7]%nat =
+  generate_weights ROps 3 4 (fun A => INR (S A)) (geom_R ex_atoms) pts (seq 0 4) [0; 2; 2; 5; 7]%nat.
+Proof. intros _. apply chunked_eq_unchunked_lemma; cbn; lia. Qed.
+Example ex_hirshfeld : fold_right Rplus 0 (map (hirshfeld_weight ROps 3 (fun A r => exp (- INR (S A) * r)) (fun A => INR A)) (seq 0 3)) = 1.
+Proof.
+  apply hirshfeld_sum_lemma. cbn [seq map fold_right].
+  pose proof (exp_pos (- INR 1 * INR 0)); pose proof (exp_pos (- INR 2 * INR 1)); pose proof (exp_pos (- INR 3 * INR 2)). lra.
+Qed.
